@@ -114,11 +114,11 @@ Proof.
 Qed.
 
 (* ---------- the plan of a returned model is well formed, for legal programs ---------- *)
-Theorem build_main_plan_wf ffuel p un main b :
-  build_main ffuel p un main = inl b -> legal_b p main = true ->
+Theorem build_main_gen_plan_wf vi ffuel p un main b :
+  build_main_gen vi ffuel p un main = inl b -> legal_b p main = true ->
   wf (is_argP p) (insP p main) (subsP p main) (gargsP p) (gresP p) (noutsP p) (plan_of_graph p main (b_graph b)) [] [].
 Proof.
-  intros H HL. destruct ffuel as [|ff]; [discriminate|]. unfold build_main in H. cbn [build_main_gen] in H.
+  intros H HL. destruct ffuel as [|ff]; [discriminate|]. cbn [build_main_gen] in H.
   apply bind_ok in H. destruct H as [d [Hd H]]. apply bind_ok in H. destruct H as [[[[mg s] rq] fs] [Hc H]].
   inversion H; subst. cbn [b_graph].
   rewrite (compile_plan _ _ _ _ _ _ _ _ _ _ _ _ _ _ Hc main).
@@ -134,6 +134,11 @@ Proof.
   - now apply args4_b_sound.
   - eapply compile_spec_ok. exact Hc.
 Qed.
+
+Theorem build_main_plan_wf ffuel p un main b :
+  build_main ffuel p un main = inl b -> legal_b p main = true ->
+  wf (is_argP p) (insP p main) (subsP p main) (gargsP p) (gresP p) (noutsP p) (plan_of_graph p main (b_graph b)) [] [].
+Proof. exact (build_main_gen_plan_wf (Some true) ffuel p un main b). Qed.
 
 Lemma wf_plan_sem p args outputs mg :
   let p' := with_main p (Some args) outputs in
